@@ -794,6 +794,89 @@ theorem sys_pure_inval (cfg : SysCfg) (hs : SameKeys cfg)
       | other => rfl
   · intro cid e he; cases cid <;> cases he
 
+theorem sysFresh_init (cfg : SysCfg) : SysFresh (Sys.init cfg) := by
+  intro cid e he; cases cid <;> cases he
+
+theorem sysFresh_step (cfg : SysCfg)
+    (hl : cfg.inval .strToBitstore .lsb0 = true) (hm : cfg.inval .strToBitstore .mxfp = true)
+    (s : Sys) (op : SysOp) (hf : SysFresh s) : SysFresh (sysStep cfg s op).1 := by
+  cases op with
+  | call cid a =>
+    obtain ⟨_, h2, _, h4, h5⟩ := sysStep_call cfg s cid a
+    intro cid' e he
+    rw [h2]
+    by_cases hc : cid = cid'
+    · subst hc
+      rw [h4] at he
+      rcases cachedCall_mem he with he | ⟨v, hv, rfl⟩
+      · exact hf cid e he
+      · exact hv
+    · rw [h5 cid' hc] at he; exact hf cid' e he
+  | setOpt n v =>
+    obtain ⟨_, h2, _, h4, h5⟩ := sysStep_setOpt cfg s n v
+    intro cid e he
+    rw [h2]
+    rcases h4 cid with e' | e'
+    · rw [e'] at he; cases he
+    · rw [e'] at he
+      by_cases hc : cid = .strToBitstore
+      · subst hc
+        cases n with
+        | lsb0 => rw [h5 _ hl] at e'; rw [← e'] at he; cases he
+        | mxfp => rw [h5 _ hm] at e'; rw [← e'] at he; cases he
+        | bytealigned => rw [sem_str_bytealigned]; exact hf _ e he
+      · rw [sem_other_indep cid hc _ s.opts]; exact hf cid e he
+  | clear cid =>
+    intro cid' e he
+    by_cases hc : cid = cid'
+    · subst hc
+      have : (sysStep cfg s (.clear cid)).1.get cid = [] := get_put_same _ _ _
+      rw [this] at he; cases he
+    · have h1 : (sysStep cfg s (.clear cid)).1.get cid' = s.get cid' := get_put_ne _ _ _ _ hc
+      have h2 : (sysStep cfg s (.clear cid)).1.opts = s.opts := put_opts _ _ _
+      rw [h1] at he; rw [h2]; exact hf cid' e he
+  | useMethod k => exact hf
+  | other => exact hf
+
+theorem sysFresh_run (cfg : SysCfg)
+    (hl : cfg.inval .strToBitstore .lsb0 = true) (hm : cfg.inval .strToBitstore .mxfp = true)
+    (ops : List SysOp) (s : Sys) (hf : SysFresh s) : SysFresh (sysRun cfg s ops).1 :=
+  (sysRun_forall cfg SysFresh (fun _ => True) (fun s op h => ⟨sysFresh_step cfg hl hm s op h, trivial⟩) ops s hf).1
+
+/-- With invalidating setters a call returns what its function computes under the options in force — in any
+    reachable state. -/
+theorem sys_call_fresh (cfg : SysCfg)
+    (hl : cfg.inval .strToBitstore .lsb0 = true) (hm : cfg.inval .strToBitstore .mxfp = true)
+    (ops : List SysOp) (cid : CacheId) (a : Call) :
+    (sysStep cfg (sysRun cfg (Sys.init cfg) ops).1 (.call cid a)).2
+      = .called cid (sysRun cfg (Sys.init cfg) ops).1.opts a (sem cid (sysRun cfg (Sys.init cfg) ops).1.opts a) := by
+  have hf := sysFresh_run cfg hl hm ops (Sys.init cfg) (sysFresh_init cfg)
+  rw [(sysStep_call cfg _ cid a).1]
+  congr 1
+  rcases cachedCall_result (cfg.cap cid) ((sysRun cfg (Sys.init cfg) ops).1.get cid) a
+      (sem cid (sysRun cfg (Sys.init cfg) ops).1.opts a) with h | ⟨v, hmem, h⟩
+  · exact h
+  · rw [h, hf cid _ hmem]
+
+/-- The option state after a history is the result of its assignments alone. -/
+def sysOptsAfter (o : Opts) (ops : List SysOp) : Opts :=
+  ops.foldl (fun o op => match op with | .setOpt n v => o.set n v | _ => o) o
+
+theorem sysRun_opts (cfg : SysCfg) (ops : List SysOp) :
+    ∀ s : Sys, (sysRun cfg s ops).1.opts = sysOptsAfter s.opts ops := by
+  induction ops with
+  | nil => intro s; rfl
+  | cons op ops ih =>
+    intro s
+    simp only [sysRun, sysOptsAfter, List.foldl_cons]
+    rw [ih]
+    cases op with
+    | call cid a => rw [(sysStep_call cfg s cid a).2.1]; rfl
+    | setOpt n v => rw [(sysStep_setOpt cfg s n v).2.1]; rfl
+    | clear cid => show sysOptsAfter (s.put cid []).opts ops = _; rw [put_opts]; rfl
+    | useMethod k => rfl
+    | other => rfl
+
 /-! ### the code as pinned: outside the regions -/
 
 def STraced (past : List (Opts × CacheId × Call)) (s : Sys) : Prop :=
@@ -929,6 +1012,16 @@ theorem sys_pure_partial (cfg : SysCfg) (hs : SameKeys cfg) (ops : List SysOp)
       have h := sconsistent_of_regions ops h₁ h₂
       show SConsistent ([] ++ sysCallTrace Opts.init ops)
       simpa using h)
+
+theorem genCfg_spec (cfg : SysCfg) (h : genCfg = some cfg) :
+    cfg.tblLsb0 = Gen.lsb0Table ∧ cfg.tblMsb0 = Gen.msb0Table ∧
+    cfg.inval .strToBitstore .lsb0 = !Gen.staleAfterLsb0 ∧ cfg.inval .strToBitstore .mxfp = !Gen.staleAfterMxfp := by
+  unfold genCfg at h
+  split at h
+  · injection h with h
+    subst h
+    exact ⟨rfl, rfl, rfl, rfl⟩
+  · cases h
 
 /-! ### `Dtype._create` -/
 
